@@ -384,8 +384,14 @@ fn history<Db: KvDatabase>(open: &dyn Fn() -> Db, r: &mut Rng, batches: usize, r
     let mut sets = SetModel::new();
     let mut reopens = 0;
     for bi in 0..batches {
-        let nops = 1 + r.usize_below(12);
-        let ops = gen_batch(r, pool.len(), nops);
+        // one batch in four is large and concentrated on a few keys: many operations on one
+        // key inside one serialization buffer (the last one must win, in recorded order)
+        let big = r.chance(1, 4);
+        let nops = if big { 30 + r.usize_below(100) } else { 1 + r.usize_below(12) };
+        let ops = gen_batch(r, if big { pool.len().min(2 + bi % 4) } else { pool.len() }, nops);
+        if big {
+            rep.count("large_batches_with_repeated_keys", 1);
+        }
         let mut nw = wide.clone();
         let mut ns = sets.clone();
         let mut batch = db.write_batch();
